@@ -65,7 +65,7 @@ func (its *OrdaService) PatchDocument(goCtx gocontext.Context, req *model.PatchM
 		return nil, errors.NewRPCError(errors.ServerBadRequest.New(ctx.L(), err.Error()))
 	}
 
-	if len(patches) > 0 {
+	if len(patches) > 0 || datatypeDoc.DUID == "" { // an absent document is created even if the target is the empty document
 		ppp := doc.(iface.Datatype).CreatePushPullPack()
 		ctx.L().Infof("%v", ppp.ToString(true))
 
